@@ -357,7 +357,7 @@ def check_case(ctx, case):
 # --------------------------------------------------------------------------
 # strategy
 # --------------------------------------------------------------------------
-REAL_LITS = ["0.5", "1.5", "2.0", "1.25", "3.0", "2.5e0", "1e3", "0.0", "1.0", "0.75"]
+REAL_LITS = ["0.5", "1.5", "2.0", "1.25", "3.0", "2.5e0", "1e3", "0.0", "1.0", "0.75", "3.14159265358979", "1.0000001"]
 COEFS = [["real", "2.5"], ["real", "0.5"], ["real", "1.5"], ["int", 3], ["int", 2], ["real", "0.25"], ["int", 4]]
 
 
